@@ -38,6 +38,8 @@ pub struct SourceSpec {
 	pub fail: Vec<(u8, u32, u32)>,
 	/// declared tile format (PBF unless a case wants a non-vector source)
 	pub format: TileFormat,
+	/// declared coverage (`None` = everything up to zoom 31)
+	pub pyramid: Option<TileBBoxPyramid>,
 }
 
 #[derive(Debug)]
@@ -99,7 +101,7 @@ pub fn make_factory(dir: &Path, sources: Sources) -> PipelineFactory {
 				let spec = sources.lock().unwrap().get(&name).cloned().ok_or_else(|| anyhow::anyhow!("no source {name}"))?;
 				Ok(Box::new(MemSource {
 					spec: spec.clone(),
-					parameters: TilesReaderParameters::new(spec.format, spec.compression, TileBBoxPyramid::new_full(31)),
+					parameters: TilesReaderParameters::new(spec.format, spec.compression, spec.pyramid.clone().unwrap_or_else(|| TileBBoxPyramid::new_full(31))),
 					tilejson: TileJSON::default(),
 				}) as Box<dyn TilesReaderTrait>)
 			})
@@ -582,7 +584,7 @@ impl Runner {
 			}
 			_ => c.tile.clone(),
 		};
-		let sources: Sources = Arc::new(Mutex::new(HashMap::from([("src".to_string(), SourceSpec { tiles: HashMap::from([((3u8, 1u32, 2u32), stored)]), compression, yields: (self.n % 3) as u32, fail: vec![], format: TileFormat::PBF })])));
+		let sources: Sources = Arc::new(Mutex::new(HashMap::from([("src".to_string(), SourceSpec { tiles: HashMap::from([((3u8, 1u32, 2u32), stored)]), compression, yields: (self.n % 3) as u32, fail: vec![], format: TileFormat::PBF, pyramid: None })])));
 		let factory = make_factory(&self.dir, sources);
 		let s = |b: &[u8]| String::from_utf8(b.to_vec()).unwrap();
 		let vpl = format!(
@@ -845,7 +847,7 @@ fn emit_paths(out: &mut Out, runner: &mut Runner, c: &UpdCase, rng: &mut Rng) {
 	std::fs::write(runner.dir.join(&csv), csv_text(c)).unwrap();
 	let sources: Sources = Arc::new(Mutex::new(HashMap::from([(
 		"src".to_string(),
-		SourceSpec { tiles, compression: declared, yields: rng.below(3) as u32, fail: if fault == Fault::ReadError { vec![coord] } else { vec![] }, format: TileFormat::PBF },
+		SourceSpec { tiles, compression: declared, yields: rng.below(3) as u32, fail: if fault == Fault::ReadError { vec![coord] } else { vec![] }, format: TileFormat::PBF, pyramid: None },
 	)])));
 	let factory = make_factory(&runner.dir, sources);
 	let s = |b: &[u8]| String::from_utf8(b.to_vec()).unwrap();
